@@ -237,6 +237,56 @@ def translate_add(cls):
             "        end\n    end.\n" % idx)
 
 
+def translate_to_tuple(cls):
+    f = next((n for n in cls.body if isinstance(n, ast.FunctionDef) and n.name == "to_tuple"), None)
+    if f is None or f.decorator_list or [a.arg for a in f.args.args] != ["self"]:
+        raise Decline("to_tuple")
+    body = [s for s in f.body if not (isinstance(s, ast.Expr) and isinstance(s.value, ast.Constant))]
+    if len(body) != 2 or not isinstance(body[0], ast.If) or body[0].orelse or not isinstance(body[1], ast.Return):
+        raise Decline("body of to_tuple")
+    g = body[0]
+    if not (len(g.body) == 1 and isinstance(g.body[0], ast.Raise)):
+        raise Decline("guard of to_tuple")
+    exc = g.body[0].exc
+    exc = exc.func if isinstance(exc, ast.Call) else exc
+    if not (isinstance(exc, ast.Name) and exc.id == "ValueError"):
+        raise Decline("exception of to_tuple")
+    t = g.test
+    def is_items(e):
+        return same(e, "self._i_to_arg") or same(e, "self._i_to_arg.keys()")
+    def is_len(e):
+        return same(e, "len(self._i_to_arg)") or same(e, "len(self)")
+    if not (isinstance(t, ast.Compare) and len(t.ops) == 1 and isinstance(t.ops[0], ast.NotEq)):
+        raise Decline("test of to_tuple")
+    l, r = t.left, t.comparators[0]
+    def is_keyset(e):
+        return isinstance(e, ast.Call) and isinstance(e.func, ast.Name) and e.func.id == "set" and len(e.args) == 1 and is_items(e.args[0])
+    def is_rangeset(e):
+        return (isinstance(e, ast.Call) and isinstance(e.func, ast.Name) and e.func.id == "set" and len(e.args) == 1
+                and isinstance(e.args[0], ast.Call) and isinstance(e.args[0].func, ast.Name) and e.args[0].func.id == "range"
+                and len(e.args[0].args) == 1 and is_len(e.args[0].args[0]))
+    if not ((is_keyset(l) and is_rangeset(r)) or (is_keyset(r) and is_rangeset(l))):
+        raise Decline("sets compared in to_tuple")
+    v = body[1].value
+    if not (isinstance(v, ast.Call) and isinstance(v.func, ast.Name) and v.func.id == "tuple" and len(v.args) == 1
+            and isinstance(v.args[0], (ast.GeneratorExp, ast.ListComp)) and len(v.args[0].generators) == 1):
+        raise Decline("returned value of to_tuple")
+    gen = v.args[0].generators[0]
+    if not (not gen.ifs and isinstance(gen.target, ast.Tuple) and len(gen.target.elts) == 2 and all(isinstance(x, ast.Name) for x in gen.target.elts)
+            and (same(gen.iter, "sorted(self._i_to_arg.items())") or same(gen.iter, "self._i_to_arg.items()"))
+            and isinstance(v.args[0].elt, ast.Name)):
+        raise Decline("generator of to_tuple")
+    order = "isort_by_key (fa_items st)" if same(gen.iter, "sorted(self._i_to_arg.items())") else "fa_items st"   # insertion order otherwise
+    kn, vn = gen.target.elts[0].id, gen.target.elts[1].id
+    if v.args[0].elt.id == vn and vn != kn:
+        proj = "snd"
+    else:
+        raise Decline("element of the tuple")
+    order_text = order
+    return ("  Definition fa_to_tuple (st : fromargs T) : res (list T) :=\n"
+            "    if negb (keys_are_range (fa_items st)) then Err ValueError else OK (map %s (%s)).\n" % (proj, order_text))
+
+
 def translate(tree):
     classes = {n.name: n for n in tree.body if isinstance(n, ast.ClassDef)}
     if "ToArgs" not in classes or "FromArgs" not in classes:
@@ -264,7 +314,7 @@ def translate(tree):
             raise Decline("default of FromArgs.%s" % k)
     return ("Section Tables.\n  Context {T : Type} (keq : T -> T -> bool).\n"
             + translate_found_index(classes["ToArgs"]) + translate_additional_args(classes["ToArgs"])
-            + translate_setitem(classes["FromArgs"]) + translate_add(classes["FromArgs"])
+            + translate_setitem(classes["FromArgs"]) + translate_add(classes["FromArgs"]) + translate_to_tuple(classes["FromArgs"])
             + "End Tables.\n")
 
 
